@@ -90,6 +90,107 @@ def gen_exhaustive(nel, nempty, depth):
     return [s for s in seqs if s]
 
 
+def exp_line(L):
+    """The line harness/seq/dll_driver.c prints for these abstract sequences: per list the emptiness flag, the forward traversal
+    (first/next) and the backward traversal (last/prev)."""
+    return "".join("%d%s:%s |%s ;" % (i, "n" if x else "e", "".join(" %d" % e for e in x), "".join(" %d" % e for e in reversed(x)))
+                   for i, x in enumerate(L))
+
+
+def tree_chunk(args):
+    """Exhaustive part, one subtree: EVERY operation sequence of length <= depth that starts with the ops `prefix`, over nel
+    singleton lists + nempty empty lists.  The driver walks the tree of sequences (T = save state, apply, print; O = restore), so
+    each sequence is executed on exactly the memory its prefix produced; after every operation all lists are compared with the
+    abstract sequences.  Returns (nodes, nontrivial, op_counts, failure) with failure = None or (ops, message); nodes counts the
+    sequences of length >= len(prefix) (the shorter ones are checked in every chunk they lead to and counted by the caller)."""
+    drv, nel, nempty, prefix, depth = args
+    inp = ["N %d %d" % (nel, nempty)]
+    expect, parent, opof = [], [], []
+    counts = {"F": 0, "L": 0, "R": 0, "S": 0}
+    tot = [0, 0]
+    np = len(prefix)
+
+    def rec(a, lvl, par, nt):
+        for o in ([prefix[lvl]] if lvl < np else a.all_ops()):
+            b = Abs(0, 0)
+            b.l = [list(x) for x in a.l]
+            b.apply(o)
+            inp.append("T " + " ".join(map(str, o)))
+            me = len(expect)
+            expect.append(exp_line(b.l))
+            parent.append(par)
+            opof.append(o)
+            nt2 = nt or o[0] in "SR" or any(len(x) >= 3 for x in b.l)
+            if lvl >= np - 1:
+                counts[o[0]] += 1
+                tot[0] += 1
+                tot[1] += 1 if nt2 else 0
+            if lvl + 1 < depth:
+                rec(b, lvl + 1, me, nt2)
+            inp.append("O")
+    rec(Abs(nel, nempty), 0, -1, False)
+    text = "\n".join(inp) + "\n"
+    rc, out, err = sh([drv], input=text, timeout=3600)
+    lines = out.splitlines()
+    if rc != 0 or len(lines) != len(expect) or not out.endswith("\n"):
+        # crashed: buffered output is lost, so run again with a flush after every line -- the first missing line is the crashing op
+        env = dict(os.environ)
+        env["DLL_DRIVER_FLUSH"] = "1"
+        rc, out, err = sh([drv], input=text, timeout=3600, env=env)
+        lines = out.splitlines()
+        if not out.endswith("\n"):
+            lines = lines[:-1]
+
+    def path(k):
+        ops = []
+        while k >= 0:
+            ops.append(opof[k])
+            k = parent[k]
+        return list(reversed(ops))
+    fail = None
+    for k, want in enumerate(expect):
+        if k >= len(lines):
+            fail = (path(k), "implementation crashed or produced no output (exit %s): %s" % (rc, err[-300:]))
+            break
+        if lines[k] != want:
+            fail = (path(k), "traversals after %r are %r, the abstract sequences give %r" % (opof[k], lines[k], want))
+            break
+    if fail is None and rc != 0:
+        fail = (list(prefix), "driver exit %s: %s" % (rc, err[-300:]))
+    return tot[0], tot[1], counts, fail
+
+
+def run_exhaustive(drv, nel, nempty, depth, split=1):
+    """All operation sequences of length 1..depth (see tree_chunk): one subtree per sequence of length `split`, subtrees in
+    parallel.  Returns (number of sequences, non-trivial ones, op counts, failures)."""
+    import concurrent.futures as cf
+    split = min(split, depth)
+    prefixes = [[]]
+    shorter = 0
+    for lvl in range(split):
+        nxt = []
+        for pre in prefixes:
+            a = Abs(nel, nempty)
+            for o in pre:
+                a.apply(o)
+            nxt += [pre + [o] for o in a.all_ops()]
+        if lvl < split - 1:
+            shorter += len(nxt)
+        prefixes = nxt
+    nodes, nontriv = shorter, 0
+    counts = {}
+    fails = []
+    with cf.ProcessPoolExecutor(max_workers=NCPU) as ex:
+        for n, nt, c, f in ex.map(tree_chunk, [(drv, nel, nempty, pre, depth) for pre in prefixes], chunksize=1):
+            nodes += n
+            nontriv += nt
+            for k, v in c.items():
+                counts[k] = counts.get(k, 0) + v
+            if f and len(fails) < 20:
+                fails.append(f)
+    return nodes, nontriv, counts, fails
+
+
 def run_impl(drv, cases):
     """cases: list of (nel, nempty, ops).  Returns per case the list of printed states (one per op)."""
     inp = []
@@ -170,6 +271,25 @@ def model_diff(cases, finals):
     return [int(x) for x in re.findall(r"-?\d+", m.group(1))], None
 
 
+def diagnose(drv, case, dflt):
+    """Message for a (shrunk) failing case: the first operation after which the real lists differ from the abstract sequences."""
+    nel, nempty, ops = case
+    rc, res, err = run_impl(drv, [(nel, nempty, ops)])
+    a = Abs(nel, nempty)
+    for k, o in enumerate(ops):
+        a.apply(o)
+        if k >= len(res[0]):
+            return "implementation crashed or produced no output after %r (exit %s): %s" % (o, rc, err[-300:])
+        st = parse_state(res[0][k])
+        if [f for (_, f, _) in st] != a.l:
+            return "forward traversal %r differs from the abstract sequences %r after %r" % ([f for (_, f, _) in st], a.l, o)
+        if [b for (_, _, b) in st] != [list(reversed(x)) for x in a.l]:
+            return "backward traversal %r differs from the reversed abstract sequences %r after %r" % ([b for (_, _, b) in st], a.l, o)
+        if [e for (e, _, _) in st] != [len(x) == 0 for x in a.l]:
+            return "is_empty wrong after %r" % (o,)
+    return dflt
+
+
 def shrink(drv, case):
     """Greedy removal of ops while the implementation still disagrees with the abstract sequences."""
     nel, nempty, ops = case
@@ -212,8 +332,27 @@ def run(tier, seed):
         return res
     rnd = random.Random(seed)
     cases = []
-    exh_depth = 2 if tier == "quick" else 3
-    for ops in gen_exhaustive(3, 1, exh_depth):
+    # exhaustive part ("up to 5 elements and 2 lists"): (elements, spare empty lists, length bound, chunking).  Every element starts
+    # as a singleton list, so group moves (make_first / make_last of a multi-element list onto a non-empty list, splice_after at every
+    # inner position of every list) appear from length 2 on.
+    exh_cfg = [(5, 2, 3, 1), (4, 2, 4, 1)] if tier == "quick" else [(5, 2, 4, 1), (4, 2, 5, 2)]
+    exh_nodes = exh_nontriv = 0
+    exh_counts = {}
+    for (nel, nempty, depth, split) in exh_cfg:
+        n, nt, cnt, fails = run_exhaustive(drv, nel, nempty, depth, split)
+        exh_nodes += n
+        exh_nontriv += nt
+        for k, v in cnt.items():
+            exh_counts[k] = exh_counts.get(k, 0) + v
+        for ops, why in fails[:3]:
+            small = shrink(drv, (nel, nempty, ops))
+            res["violations"].append({"case": {"nel": nel, "nempty": nempty, "ops": small}, "why": diagnose(drv, (nel, nempty, small), why),
+                                      "key": "dll:" + " ".join(map(str, small[:1]))})
+        if fails:
+            break
+    res["violations"] = res["violations"][:3]
+    # a small exhaustive set also goes through the sequence-at-a-time protocol below (and from there to the Coq evaluation of Gen/Dll.v)
+    for ops in gen_exhaustive(3, 1, 2):
         cases.append((3, 1, ops))
     nrand = 300 if tier == "quick" else 3000
     for _ in range(nrand):
@@ -242,15 +381,16 @@ def run(tier, seed):
                     break
         if bad:
             small = shrink(drv, (nel, nempty, ops))
-            res["violations"].append({"case": {"nel": nel, "nempty": nempty, "ops": small}, "why": bad,
+            res["violations"].append({"case": {"nel": nel, "nempty": nempty, "ops": small}, "why": diagnose(drv, (nel, nempty, small), bad),
                                       "key": "dll:" + " ".join(map(str, small[:1]))})
+            finals.append(None)
             if len(res["violations"]) >= 3:
                 break
-            finals.append(None)
         else:
             finals.append(parse_state(lines[-1]) if lines else [])
             if any(len(x) >= 3 for x in a.l) or any(o[0] in "SR" for o in ops):
                 nontrivial.add((nel, tuple(ops)))
+    res["violations"] = res["violations"][:3]
     diffs = 0
     st = json.load(open(os.path.join(GEN, "STATUS.json")))
     if st.get("Dll", {}).get("ok") and not res["violations"] and os.path.exists(os.path.join(COQ, "Proof/DllSpec.vo")):
@@ -265,15 +405,17 @@ def run(tier, seed):
             for i in bad[:3]:
                 res["broken"].append({"what": "correspondence: Gen/Dll.v and the real dll.c disagree",
                                       "case": cases[sub[i]]})
-    kinds = {}
+    kinds = dict(exh_counts)
     for c in cases:
         for o in c[2]:
             kinds[o[0]] = kinds.get(o[0], 0) + 1
-    res["coverage"] = {"evaluations": len(cases), "distinct_nontrivial": len(nontrivial),
-                       "rule": "exhaustive op sequences up to length %d over 3 elements + 1 empty list, plus %d random sequences "
+    res["coverage"] = {"evaluations": len(cases) + exh_nodes, "distinct_nontrivial": len(nontrivial) + exh_nontriv,
+                       "rule": "EVERY op sequence of length <= L over n singleton lists + 2 empty lists for (n, L) in %s (%d sequences, walked as a "
+                               "tree by the driver: each sequence runs on the memory its prefix left), plus %d random sequences "
                                "(length 3..40, 2..8 elements, 2 extra lists) drawn from VERIF_SEED; after every op all lists are "
                                "traversed forwards and backwards by the real functions and compared with Python lists; "
-                               "non-trivial = contains a remove or splice, or builds a list of >= 3 elements" % (exh_depth, nrand),
-                       "op_counts": kinds, "traces_validated_against_impl": diffs,
+                               "non-trivial = contains a remove or splice, or builds a list of >= 3 elements"
+                               % ([(c[0], c[2]) for c in exh_cfg], exh_nodes, nrand),
+                       "exhaustive_sequences": exh_nodes, "op_counts": kinds, "traces_validated_against_impl": diffs,
                        "samples": [{"nel": c[0], "ops": [list(o) for o in c[2][:8]]} for c in cases[-3:]]}
     return res
